@@ -2,7 +2,7 @@
    pointer-level reading of well-formedness (HeapOK). *)
 From Coq Require Import List ZArith Bool Arith Lia Permutation.
 From NT Require Import Sx Rose ListFacts RoseFacts Surgery SurgeryFacts Machine WF MachineFacts PreserveSteps PreserveOps
-  PreserveKeepClones Invariant Heap HeapProofs HeapRemove HeapMore HeapMove HeapShort HeapKeep HeapData HeapCopy.
+  PreserveKeepClones Invariant Heap HeapProofs HeapRemove HeapMore HeapMove HeapShort HeapKeep HeapData HeapCopy HeapSortDeep.
 Import ListNotations.
 
 (* operations whose simulation proof is closed *)
@@ -13,7 +13,7 @@ Definition covered_heap (o : op) : bool :=
   | ORemoveChildren _ _ => true
   | OClear _ => true
   | OMove _ _ _ _ _ => true
-  | OSort _ _ _ _ deep => negb deep
+  | OSort _ _ _ _ _ => true
   | OMeta _ _ _ => true
   | ONewTree _ _ => true
   | ODel _ _ => true
@@ -44,7 +44,7 @@ Proof.
   - now apply sim_op_move.
   - destruct keep; [now apply sim_op_remove_keep|now apply sim_op_remove_plain].
   - now apply sim_op_remove_children.
-  - destruct deep; [discriminate C|]. now apply sim_op_sort_flat.
+  - destruct deep; [now apply sim_op_sort_deep|now apply sim_op_sort_flat].
   - now apply sim_op_set_data.
   - now apply sim_op_rename.
   - now apply sim_op_meta.
